@@ -44,9 +44,14 @@ class Clock(object):
     mode 'ltod': an index in zone tz; timestamp d*B + e = the instant (e-1)*unit minutes after the local midnight of
                  the civil day day0 + (d-1); a bound k = the time of day (k-1)*unit minutes; todslot() reads the
                  wall-clock time of day off a rendered timestamp.
-    btz: the zone in which a date bound is handed over (None = the zone of the index)."""
-    def __init__(self, mode, B, unit, tz=None, day0=None, btz=None):
+    btz: the zone in which a date bound is handed over (None = the zone of the index).
+    brep: how a date bound is realised: datetime.datetime (default), pd.Timestamp, numpy.datetime64, datetime.date (a
+          bound at midnight; otherwise a string) or a string - for an index in a zone only the zone-aware realisations
+          (datetime / Timestamp) exist, the others fall back to Timestamp.
+    iunit: the resolution of the DatetimeIndex (None = what pandas picks, 'ns', 's')."""
+    def __init__(self, mode, B, unit, tz=None, day0=None, btz=None, brep=None, iunit=None):
         self.mode, self.B, self.unit, self.tz, self.day0, self.btz = mode, B, unit, tz or None, day0, btz or None
+        self.brep, self.iunit = brep or 'datetime', iunit or None
         self.tzi = tzinfo_of(self.tz)
         self.base = pd.Timestamp(BASE, tz=self.tzi) if self.tz else BASE
         if mode == 'ltod':
@@ -65,16 +70,39 @@ class Clock(object):
             return x if not self.tz else pd.Timestamp(x).tz_localize(self.tzi)
         return self.midnight(self.d0 + datetime.timedelta(days=t // self.B - 1)) + pd.Timedelta(minutes=(t % self.B - 1) * self.unit)
 
-    def bound(self, b):
+    def bound(self, b, uniform=False):
+        """uniform: the bound goes into a LIST of bounds, which a caller writes in one realisation (dates on a daily grid,
+        otherwise strings of one format)"""
         if b == 0:
             return None
         if self.mode == 'date':
             x = self.stamp(b)
             if self.tz:
-                x = (x.tz_convert(tzinfo_of(self.btz)) if self.btz else x).to_pydatetime()
-            return x
+                x = x.tz_convert(tzinfo_of(self.btz)) if self.btz else x
+                return x.to_pydatetime() if self.brep == 'datetime' else x
+            if self.brep == 'datetime':
+                return x
+            x = pd.Timestamp(x)
+            if self.brep == 'Timestamp':
+                return x
+            if self.brep == 'dt64':
+                return x.to_datetime64()
+            midnight = x == x.normalize()
+            if uniform:
+                return x.date() if self.brep == 'date' and self.unit % 1440 == 0 else x.strftime('%Y-%m-%d %H:%M')
+            if self.brep == 'date' and midnight:
+                return x.date()
+            return x.strftime('%Y-%m-%d' if midnight else '%Y-%m-%d %H:%M')
         m = (b - 1) * self.unit
         return datetime.time(m // 60, m % 60)
+
+    def unbound(self, x):
+        """the grid position of a date bound as it sits in the caller's list (whatever its realisation)"""
+        if x is None:
+            return 0
+        if isinstance(x, (datetime.datetime, datetime.date, np.datetime64, str)):
+            return self.grid(x)
+        return -9
 
     def todslot(self, ts):
         """the wall-clock time of day that a timestamp of the index shows, as a slot"""
@@ -103,7 +131,8 @@ class Clock(object):
             return -9
 
     def index(self, rows):
-        return pd.DatetimeIndex([self.stamp(t) for t in rows], tz=self.tzi)
+        ix = pd.DatetimeIndex([self.stamp(t) for t in rows], tz=self.tzi)
+        return ix.as_unit(self.iunit) if self.iunit else ix
 
     def spec(self):
         return [self.mode, self.B, self.unit]
@@ -150,7 +179,7 @@ def observe_slice(case):
     rendered index shows it: for a zoned index (mode ltod) s.tod is the wall-clock time of day read off each row."""
     from pyg_base import df_slice
     mode = case.get('mode') or case['kind']
-    clock = Clock(mode, case['B'], case['unit'], case.get('tz'), case.get('day0'), case.get('btz'))
+    clock = Clock(mode, case['B'], case['unit'], case.get('tz'), case.get('day0'), case.get('btz'), case.get('brep'), case.get('iunit'))
     s = {'rows': case['s']['rows'], 'cols': case['s']['cols']}
     idx = clock.index(s['rows'])
     if [clock.grid(x) for x in idx] != s['rows']:
@@ -184,7 +213,7 @@ def observe_slice(case):
         runs.append({'carrier': carrier, 'out': out})
     return {'op': 'slice', 'mode': mode, 'B': case['B'], 'unit': case['unit'], 's': s, 'lb': case['lb'], 'ub': case['ub'],
             'oc': case['oc'], 'spelling': sp, 'tz': case.get('tz') or '', 'btz': case.get('btz') or '', 'day0': case.get('day0') or '',
-            'runs': runs}
+            'brep': case.get('brep') or '', 'iunit': case.get('iunit') or '', 'runs': runs}
 
 
 def observe_session(case):
@@ -193,7 +222,7 @@ def observe_session(case):
     lists are read again.  For increasing bounds each stitched result is also handed to df_unslice and the recovered
     series are stitched again.  All series carry case['name'] (None or a shared name such as 'close')."""
     from pyg_base import df_slice, df_unslice
-    clock = Clock('date', 100, case['unit'], case.get('tz'), None, case.get('btz'))
+    clock = Clock('date', 100, case['unit'], case.get('tz'), None, case.get('btz'), case.get('brep'), case.get('iunit'))
     ss, ubs, name = case['ss'], case['ubs'], case.get('name')
     # df_unslice is claimed for stitched frames of series without repeated timestamps and without recorded NaNs
     unslice = case.get('unslice', True) and not any(NAN in x['cols'][0] for x in ss)
@@ -202,7 +231,7 @@ def observe_session(case):
         for x in xs:
             x.name = name
     originals = list(xs)
-    bounds = [clock.bound(u) for u in ubs]
+    bounds = [clock.bound(u, True) for u in ubs]
     increasing = all(a < b for a, b in zip(ubs, ubs[1:]))
     calls, unst = [], []
     for n in case['ns']:
@@ -214,7 +243,7 @@ def observe_session(case):
             out = enc(res, clock)          # a Series or a frame; the statement does not name the column labels
         except Exception as e:
             out = exc(e)
-        ubs_after = [clock.grid(b) if isinstance(b, datetime.datetime) else -9 for b in bounds] if isinstance(bounds, list) else [-9]
+        ubs_after = [clock.unbound(b) for b in bounds] if isinstance(bounds, list) else [-9]
         pos = {id(x): i + 1 for i, x in enumerate(originals)}
         ss_after = [pos.get(id(x), -9) for x in xs] if isinstance(xs, list) else [-9]
         for i, x in enumerate(originals):          # ... and the series themselves still hold what they held
@@ -229,15 +258,15 @@ def observe_session(case):
                 with warnings.catch_warnings():
                     warnings.simplefilter('ignore')
                     u = df_unslice(res, list(bounds))
-                keys = sorted(u.keys())
-                uo = {'kind': 'val', 'keys': [clock.grid(k) for k in keys], 'series': []}
+                keys = sorted(u.keys(), key=clock.unbound)
+                uo = {'kind': 'val', 'keys': [clock.unbound(k) for k in keys], 'series': []}
                 for k in keys:
                     e1 = enc(u[k], clock)
                     if e1['kind'] != 'val' or not isinstance(u[k], pd.Series):
                         uo = {'kind': 'other', 'type': type(u[k]).__name__}
                         break
                     uo['series'].append({'rows': e1['rows'], 'cols': e1['cols']})
-                if uo['kind'] == 'val' and [clock.grid(k) for k in keys] == ubs:
+                if uo['kind'] == 'val' and [clock.unbound(k) for k in keys] == ubs:
                     try:
                         with warnings.catch_warnings():
                             warnings.simplefilter('ignore')
@@ -250,6 +279,215 @@ def observe_session(case):
                          'tz': case.get('tz') or '', 'btz': case.get('btz') or ''})
     return [{'op': 'session', 'ss': ss, 'ubs': ubs, 'unit': case['unit'], 'named': bool(name), 'calls': calls,
              'tz': case.get('tz') or '', 'btz': case.get('btz') or ''}] + unst
+
+
+# ---------------------------------------------------------------------------------------------
+# sessions on a world of caller-owned objects (law: spec/SliceSess.tla)
+# ---------------------------------------------------------------------------------------------
+NOFRAME = {'rows': [], 'cols': []}
+SMUDGE = 777.0
+
+
+class World(object):
+    """the caller's objects of one session: objs = every series object ever made (heap), xs = the caller's list of
+    series, bounds = the caller's list of bounds, fr = the frame the last stitch returned; un / sl = what the last
+    df_unslice / single df_slice returned"""
+    def __init__(self, w0, clock, name=None):
+        self.clock, self.name = clock, name
+        self.objs = [self.make(h) for h in w0['heap']]
+        self.xs = [self.objs[i - 1] for i in w0['ids']]
+        self.bounds = [clock.bound(b, True) for b in w0['bl']]
+        self.fr, self.fn, self.un, self.sl = None, 0, None, None
+
+    def make(self, h):
+        x = series(self.clock, h['rows'], h['cols'][0])
+        if self.name:
+            x.name = self.name
+        return x
+
+    def plain(self, x):
+        e = enc(x, self.clock)
+        return {'rows': e['rows'], 'cols': e['cols']} if e['kind'] == 'val' else {'rows': [-9], 'cols': [[-9]]}
+
+    def read(self):
+        pos = {id(x): i + 1 for i, x in enumerate(self.objs)}
+        return {'heap': [self.plain(x) for x in self.objs],
+                'ids': [pos.get(id(x), -9) for x in self.xs] if isinstance(self.xs, list) else [-9],
+                'bl': [self.clock.unbound(b) for b in self.bounds] if isinstance(self.bounds, list) else [-9],
+                'fr': self.plain(self.fr) if self.fr is not None else dict(NOFRAME), 'fn': self.fn}
+
+    def owned(self, x):
+        return x is self.fr or any(x is o for o in self.objs)
+
+    def step(self, a, sp=0):
+        """perform one step; returns what the call returned, encoded (None for the caller's own actions)"""
+        from pyg_base import df_slice, df_unslice
+        clock, op = self.clock, a['op']
+        with warnings.catch_warnings():
+            warnings.simplefilter('ignore')
+            if op == 'stitch':
+                self.fr, self.fn = None, a['n']
+                try:
+                    self.fr = df_slice(self.xs, ub=self.bounds, n=a['n'])
+                    return enc(self.fr, clock)
+                except Exception as e:
+                    return exc(e)
+            if op == 'unslice':
+                out = {'kind': 'other', 'type': '', 'keys': [], 'series': [], 'again': dict(NOFRAME, kind='none')}
+                try:
+                    self.un = u = df_unslice(self.fr, self.bounds)
+                    keys = sorted(u.keys(), key=clock.unbound)
+                    out.update(kind='val', keys=[clock.unbound(k) for k in keys])
+                    for k in keys:
+                        e1 = enc(u[k], clock)
+                        if e1['kind'] != 'val' or not isinstance(u[k], pd.Series):
+                            out.update(kind='other', type=type(u[k]).__name__, series=[])
+                            return out
+                        out['series'].append({'rows': e1['rows'], 'cols': e1['cols']})
+                    try:
+                        out['again'] = enc(df_slice([u[k] for k in keys], ub=list(self.bounds), n=self.fn), clock)
+                    except Exception as e:
+                        out['again'] = exc(e)
+                except Exception as e:
+                    out.update(exc(e))
+                    out.update(keys=[], series=[])
+                return out
+            if op == 'slice':
+                x = self.fr if a['tgt'] == 'f' else self.xs[a['i'] - 1]
+                lb, ub, oc = clock.bound(a['lb']), clock.bound(a['ub']), ''.join(a['oc'])
+                if sp % 3 == 2:
+                    oc = oc.replace('[', 'c').replace(']', 'c').replace('(', 'o').replace(')', 'o')
+                self.sl = None
+                try:
+                    if sp % 3 == 1 and lb is not None and ub is not None:
+                        self.sl = df_slice(x, (lb, ub), None, oc)
+                    elif sp % 2 == 1:
+                        self.sl = df_slice(x, lb=lb, ub=ub, openclose=oc)
+                    else:
+                        self.sl = df_slice(x, lb, ub, oc)
+                    if type(self.sl) is not type(x):
+                        return {'kind': 'other', 'type': type(self.sl).__name__, 'rows': [], 'cols': []}
+                    return enc(self.sl, clock)
+                except Exception as e:
+                    return exc(e)
+        # ---- the caller's own actions, all in place ----
+        v = np.nan if a.get('v') == NAN else float(a.get('v', 0))
+        if op == 'set' and a['tgt'] == 's':
+            self.xs[a['i'] - 1].iloc[a['r'] - 1] = v
+        elif op == 'set':
+            if isinstance(self.fr, pd.Series):
+                self.fr.iloc[a['r'] - 1] = v
+            else:
+                self.fr.iloc[a['r'] - 1, a['j'] - 1] = v
+        elif op == 'bound':
+            self.bounds[a['i'] - 1] = clock.bound(a['b'], True)
+        elif op == 'swap':
+            i, j = a['i'] - 1, a['j'] - 1
+            self.xs[i], self.xs[j] = self.xs[j], self.xs[i]
+        elif op == 'put':
+            self.objs.append(self.make(a['s']))
+            self.xs[a['i'] - 1] = self.objs[-1]
+        elif op == 'smudge':
+            # scribble over what the last call returned; a result that IS one of the caller's objects (df_slice without
+            # bounds hands back its argument) is the caller's object - writing on it is an edit of that object, not done here
+            res = list(self.un.values()) if (a['tgt'] == 'un' and isinstance(self.un, dict)) else [self.sl] if a['tgt'] == 'sl' else []
+            for r in res:
+                if isinstance(r, (pd.Series, pd.DataFrame)) and not self.owned(r) and len(r):
+                    if isinstance(r, pd.Series):
+                        r.iloc[:] = SMUDGE
+                    else:
+                        r.iloc[:, :] = SMUDGE
+            if a['tgt'] == 'un' and isinstance(self.un, dict):
+                self.un.clear()
+        else:
+            raise Machinery('C13 driver: unknown step %r' % (a,))
+        return None
+
+
+def small_act(a):
+    """the fields of a step that its op uses (TLC prints every step with all fields)"""
+    keep = {'stitch': ['n'], 'unslice': [], 'slice': ['tgt', 'i', 'lb', 'ub', 'oc'], 'set': ['tgt', 'i', 'j', 'r', 'v'], 'bound': ['i', 'b'],
+            'swap': ['i', 'j'], 'put': ['i', 's'], 'smudge': ['tgt']}[a['op']]
+    return dict({'op': a['op']}, **{k: a[k] for k in keep})
+
+
+def observe_sess(case):
+    """case: {form, w0, steps: [{a, (w, res)}], unit, tz, btz, brep, iunit, name, spelling}: the steps are performed one after
+    the other on ONE world; the whole world is read before the session and after every step.  Returns the list of
+    step observations {op 'step', w = the world as read before the step, a, x = {w = the world read afterwards, out}}."""
+    clock = Clock('date', 100, case['unit'], case.get('tz'), None, case.get('btz'), case.get('brep'), case.get('iunit'))
+    W = World(case['w0'], clock, case.get('name'))
+    before = W.read()
+    if before != case['w0']:
+        raise Machinery('C13 driver: the rendered world does not read back as the abstract one: %r' % (case['w0'],))
+    meta = {k: case.get(k) or '' for k in ('form', 'tz', 'btz', 'brep', 'iunit')}
+    meta.update(unit=case['unit'], named=bool(case.get('name')), spelling=case.get('spelling', 0), w0=case['w0'],
+                acts=[small_act(st['a']) for st in case['steps']])
+    out = []
+    for k, st in enumerate(case['steps']):
+        a = st['a']
+        try:
+            res = W.step(a, case.get('spelling', 0) + k)
+        except Machinery:
+            raise
+        except Exception:
+            if a['op'] in ('stitch', 'unslice', 'slice'):
+                raise
+            break                       # the caller's edit has nothing to work on (an earlier result is not what the specification says)
+        after = W.read()
+        x = {'w': after, 'out': res if res is not None else dict(NOFRAME, kind='none')}
+        out.append(dict(meta, op='step', k=k + 1, w=before, a=a, x=x))
+        before = after
+        if -9 in after['ids'] or -9 in after['bl'] or any(h['rows'] == [-9] for h in after['heap']):
+            break                       # the caller's lists no longer hold what a next step could speak of
+        if res is not None and res['kind'] != 'val':
+            break                       # the call gave no result the next steps could work on
+    return out
+
+
+def key_sess(o):
+    a = o['a']
+    return {'op': 'df_unslice' if a['op'] == 'unslice' else 'df_slice', 'kind': 'session', 'form': o['form'], 'step': o['k'], 'call': a['op'],
+            'acts': o['acts'][:o['k']], 'w0': o['w0'], 'unit': o['unit'], 'named': o['named'], 'tz': o['tz'], 'btz': o['btz'],
+            'brep': o['brep'], 'iunit': o['iunit'], 'spelling': o['spelling'], 'n': a.get('n') or o['w']['fn'], 'k': len(o['w0']['ids'])}
+
+
+def sess_chunk(cases):
+    """S2C for sessions: every step's result and the whole world afterwards compared with what TLC printed; the first step
+    that differs is the finding.  df_unslice steps (admitted answers are a set) are returned for Trace_Slice."""
+    res = []
+    for case in cases:
+        viol, tolog, nevals = [], [], 0
+        for o, st in zip(observe_sess(case), case['steps']):
+            a, x = o['a'], o['x']
+            nevals += 1 if a['op'] in ('stitch', 'slice') else 2 if a['op'] == 'unslice' else 0
+            want_w, want = st['w'], st['res']
+            bad = None
+            if a['op'] in ('stitch', 'slice'):
+                p = 'stitch' if a['op'] == 'stitch' else 'slice'
+                if x['out']['kind'] != 'val':
+                    bad = (p + '_raised', {'expected': want, 'observed': x['out']})
+                elif x['out']['rows'] != want['rows']:
+                    bad = (p + '_rows', {'expected': want['rows'], 'observed': x['out']['rows']})
+                elif x['out']['cols'] != want['cols']:
+                    bad = (p + '_values', {'expected': want['cols'], 'observed': x['out']['cols']})
+            if bad is None and a['op'] == 'unslice':
+                tolog.append(o)
+                if x['out']['kind'] == 'val' and x['out']['again'] != dict(want_w['fr'], kind='val'):
+                    bad = ('unstitch_restitch', {'expected': want_w['fr'], 'observed': x['out']['again']})
+            if bad is None and x['w'] != want_w:
+                part = [k for k in ('ids', 'heap', 'bl', 'fr', 'fn') if x['w'][k] != want_w[k]]
+                if a['op'] in ('stitch', 'unslice', 'slice'):
+                    bad = ('argument_changed', {'part': part, 'expected': want_w, 'observed': x['w']})
+                elif a['op'] == 'smudge':
+                    bad = ('result_shared', {'part': part, 'expected': want_w, 'observed': x['w']})
+                else:
+                    raise Machinery('C13 driver: the caller\'s own step %r did not do what the specification says: %r' % (a, x['w']))
+            if bad:
+                viol.append((bad[0], key_sess(o), bad[1]))
+                break
+        res.append((viol, tolog, nevals))
+    return res
 
 
 def slice_kind(o):
@@ -265,7 +503,7 @@ def has_dup(rows):
 def key_slice(o, carrier=None):
     c = {'op': 'df_slice', 'kind': slice_kind(o), 'oc': ''.join(o['oc']), 'lb': o['lb'], 'ub': o['ub'], 's': o['s'],
          'clock': [o['mode'], o['B'], o['unit']], 'spelling': o['spelling'], 'tz': o.get('tz', ''), 'btz': o.get('btz', ''),
-         'day0': o.get('day0', ''), 'dup': has_dup(o['s']['rows'])}
+         'day0': o.get('day0', ''), 'dup': has_dup(o['s']['rows']), 'brep': o.get('brep', ''), 'iunit': o.get('iunit', '')}
     if carrier:
         c['carrier'] = carrier
     return c
@@ -279,15 +517,21 @@ def key_stitch(o, k=None):
         return {'op': 'df_slice', 'kind': 'stitch', 'n': o['calls'][k]['n'], 'k': len(o['ss']), 'direction': 'increasing' if inc else 'decreasing',
                 'has_empty': any(len(x['rows']) == 0 for x in o['ss']), 'named': o['named'], 'call': k + 1,
                 'ns': [c['n'] for c in o['calls']], 'ubs': o['ubs'], 'ss': o['ss'], 'unit': o['unit'], 'tz': o.get('tz', ''), 'btz': o.get('btz', ''),
-                'dup': any(has_dup(x['rows']) for x in o['ss'])}
+                'dup': any(has_dup(x['rows']) for x in o['ss']), 'brep': o.get('brep', ''), 'iunit': o.get('iunit', '')}
     return {'op': 'df_unslice', 'kind': 'unstitch', 'n': o['n'], 'k': len(o['ubs']), 'named': o['named'], 'ubs': o['ubs'], 'F': o['F'], 'unit': o['unit'],
-            'tz': o.get('tz', ''), 'btz': o.get('btz', '')}
+            'tz': o.get('tz', ''), 'btz': o.get('btz', ''), 'brep': o.get('brep', ''), 'iunit': o.get('iunit', '')}
 
 
 # ---------------------------------------------------------------------------------------------
 # S2C: replay of the cases TLC enumerated
 # ---------------------------------------------------------------------------------------------
 S2C_UNIT = {'date': 720, 'tod': 150, 'stitch': 720}      # grid step in minutes (ltod: from the zone, see zone_of)
+
+
+# the zone in which a date bound for a zoned index is written (None = the zone of the index): the same instant, another wall clock
+BTZS = [None, 'UTC', None, 'Asia/Tokyo', 'America/New_York', 'fixed-330']
+BREPS = ['datetime', 'Timestamp', 'dt64', 'date', 'str']       # how a date bound is realised (see Clock)
+IUNITS = [None, None, 'ns', None, 's']                          # resolution of the DatetimeIndex
 
 
 def zone_of(z, i):
@@ -394,6 +638,8 @@ def judge(ctx, obs):
             PENDING.append((clause, key_slice(o), {'runs': o['runs']}))
         elif o['op'] == 'session':
             PENDING.append((clause, key_stitch(o), {'calls': o['calls']}))
+        elif o['op'] == 'step':
+            PENDING.append((clause, key_sess(o), {'world_before': o['w'], 'step': o['a'], 'observed': o['x']}))
         else:
             PENDING.append((clause, key_stitch(o), {'observed': o['out']}))
     return bad
@@ -437,7 +683,9 @@ def s2c(ctx, cases, tag):
             c.update(zone_of(c['z'], i))
         else:
             c['tz'] = TZS[(i // 12 + i) % len(TZS)]
-            c['btz'] = 'UTC' if c['tz'] and (i // 5) % 2 else None
+            c['btz'] = BTZS[(i // 5) % len(BTZS)] if c['tz'] else None
+        c['brep'] = BREPS[(i // 7 + i) % len(BREPS)]
+        c['iunit'] = IUNITS[(i // 11) % len(IUNITS)]
     out = pmap(s2c_chunk, cases, chunk=400)
     tolog = []
     for i, (case, (viol, lg, nevals, nt)) in enumerate(zip(cases, out)):
@@ -449,6 +697,43 @@ def s2c(ctx, cases, tag):
             ctx.note(('s2c', repr([case.get(k) for k in ('kind', 's', 'lb', 'ub', 'oc', 'ss', 'ubs', 'ns', 'z')])))
         if i % 15013 == 11 or (case['kind'] == 'session' and i % 1013 == 5) or (case['kind'] == 'ltod' and i % 3001 == 7):
             ctx.sample({'s2c_case_' + tag: case}, limit=8)
+    if tolog:
+        judge(ctx, tolog)
+
+
+SESS_OPS = {'stitch', 'unslice', 'slice', 'set', 'bound', 'swap', 'put', 'smudge'}
+
+
+def s2c_sessions(ctx, sessions, tag, forms):
+    """replay the histories TLC printed (MC_SliceSess); every session is dressed with a zone, a realisation of the bounds, an
+    index resolution, a shared series name and a call spelling by its position in the sorted list"""
+    import json
+    sessions = sorted(sessions, key=lambda c: json.dumps(c, sort_keys=True))
+    seen = {(c['form'], st['a']['op']) for c in sessions for st in c['steps']}
+    for f in forms:
+        if not any(k[0] == f for k in seen):
+            raise Machinery('vacuous: TLC printed no session of form %s (%s)' % (f, tag))
+    if {k[1] for k in seen} != SESS_OPS:
+        raise Machinery('vacuous: the sessions of %s never take the steps %s' % (tag, sorted(SESS_OPS - {k[1] for k in seen})))
+    for i, c in enumerate(sessions):
+        c['tz'] = TZS[(i // 12 + i) % len(TZS)]
+        c['btz'] = BTZS[(i // 5) % len(BTZS)] if c['tz'] else None
+        c['brep'] = BREPS[(i // 7 + i) % len(BREPS)]
+        c['unit'] = 1440 if c['brep'] == 'date' else S2C_UNIT['stitch']        # a list of datetime.date bounds: a daily grid
+        c['iunit'] = IUNITS[(i // 11) % len(IUNITS)]
+        c['name'] = 'close' if i % 3 == 1 else None
+        c['spelling'] = i % 12
+    out = pmap(sess_chunk, sessions, chunk=150)
+    tolog = []
+    for i, (case, (viol, lg, nevals)) in enumerate(zip(sessions, out)):
+        PENDING.extend(viol)
+        tolog += lg
+        ctx.evals += nevals
+        ctx.traces += 1
+        ctx.note(('sess', repr((case['form'], case['w0'], [small_act(st['a']) for st in case['steps']]))))
+        if i % 1501 == 7:
+            ctx.sample({'s2c_session_' + tag: {'form': case['form'], 'w0': case['w0'], 'steps': [small_act(st['a']) for st in case['steps']],
+                                               'tz': case['tz'], 'btz': case['btz'], 'brep': case['brep']}}, limit=6)
     if tolog:
         judge(ctx, tolog)
 
@@ -546,7 +831,7 @@ def rand_slice(rng):
     tz = rng.choice(C2S_TZS)
     s = {'rows': rows, 'cols': [[rng.randrange(0, 1000000) for _ in rows] for _ in range(ncols)]}
     return {'op': 'slice', 'mode': mode, 'B': B, 'unit': 1, 's': s, 'lb': lb, 'ub': ub, 'oc': rng.choice(OCS), 'spelling': rng.randrange(0, 12),
-            'tz': tz, 'btz': rng.choice([None, 'UTC', 'Asia/Tokyo']) if tz else None}
+            'tz': tz, 'btz': rng.choice(BTZS) if tz else None, 'brep': rng.choice(BREPS), 'iunit': rng.choice(IUNITS)}
 
 
 def rand_stitch(rng):
@@ -576,7 +861,8 @@ def rand_stitch(rng):
     tz = rng.choice(C2S_TZS)
     return {'op': 'session', 'ss': ss, 'ubs': ubs, 'unit': 1, 'unslice': not dup,
             'ns': [1 if dup else rng.randrange(1, k + 1) for _ in range(rng.choice([1, 2, 2, 3]))],
-            'name': rng.choice([None, 'close', 'px']), 'tz': tz, 'btz': rng.choice([None, 'UTC']) if tz else None}
+            'name': rng.choice([None, 'close', 'px']), 'tz': tz, 'btz': rng.choice(BTZS) if tz else None, 'brep': rng.choice(BREPS),
+            'iunit': rng.choice(IUNITS)}
 
 
 def c2s(ctx, n_slice, n_stitch):
@@ -602,14 +888,15 @@ def replay(ctx, body):
     if c['kind'] in ('date', 'tod', 'tod_wrap', 'ltod', 'ltod_wrap'):
         mode, B, unit = c['clock']
         obs = [observe_slice({'mode': mode, 'B': B, 'unit': unit, 's': c['s'], 'lb': c['lb'], 'ub': c['ub'], 'oc': list(c['oc']),
-                              'spelling': c.get('spelling', 0), 'tz': c.get('tz'), 'btz': c.get('btz'), 'day0': c.get('day0')})]
+                              'spelling': c.get('spelling', 0), 'tz': c.get('tz'), 'btz': c.get('btz'), 'day0': c.get('day0'),
+                              'brep': c.get('brep'), 'iunit': c.get('iunit')})]
     elif c['kind'] == 'stitch':
         obs = observe_session({'ss': c['ss'], 'ubs': c['ubs'], 'ns': c.get('ns') or [c['n']], 'unit': c['unit'], 'name': 'close' if c.get('named') else None,
-                               'tz': c.get('tz'), 'btz': c.get('btz'), 'unslice': not c.get('dup')})[:1]
+                               'tz': c.get('tz'), 'btz': c.get('btz'), 'unslice': not c.get('dup'), 'brep': c.get('brep'), 'iunit': c.get('iunit')})[:1]
     else:
         # an unstitch case: rebuild the frame as df_slice returns it and call df_unslice again
         from pyg_base import df_unslice
-        clock = Clock('date', 100, c['unit'], c.get('tz'), None, c.get('btz'))
+        clock = Clock('date', 100, c['unit'], c.get('tz'), None, c.get('btz'), c.get('brep'), c.get('iunit'))
         F, n = c['F'], c['n']
         x = series(clock, F['rows'], F['cols'][0]) if n == 1 else pd.DataFrame(
             {j: [np.nan if v == NAN else float(v) for v in col] for j, col in enumerate(F['cols'])}, index=clock.index(F['rows']))
